@@ -515,12 +515,17 @@ var placeTemplates = []string{
 	"t := [len(\"ab\"), len(\"cd\")][\x00]",
 	"for x in [\x00] {\n%Ja = x\n%I}",
 	"t := func(p) { return p }(\x00)",
+	// \x01…\x02 delimit the innermost statement when it is a part of the text (init / post statements)
+	"if \x01t := \x00\x02; t {\n%Ja = 0\n%I}",
+	"for \x01j := \x00\x02; j < 2; j++ {\n%Ja = 0\n%I}",
+	"for j := 0; j < 2; \x01j += \x00\x02 {\n%Ja = 0\n%I}",
+	"if t := 1; t == a {\n%Ja = 0\n%I} else if \x01u := [\n%J\x00]\x02; u {\n%Ja = 1\n%I}",
 	// function levels only (see numPlaceAll)
 	"return \x00",
 	"return [a,\n%J\x00]",
 }
 
-const numPlaceAll = 25 // templates usable at every level
+const numPlaceAll = 29 // templates usable at every level
 
 func (g *gen) writeTarget(e *emitter, k int, ind string) {
 	isFunc := g.lv[k].kind == "func"
@@ -531,6 +536,7 @@ func (g *gen) writeTarget(e *emitter, k int, ind string) {
 	g.wrapped(e, ind, func(ind string) {
 		var text string
 		off := 0
+		subLo, subHi := -1, -1
 		if g.kind.expr != "" {
 			n := numPlaceAll
 			if isFunc {
@@ -541,6 +547,12 @@ func (g *gen) writeTarget(e *emitter, k int, ind string) {
 				i = g.r.Intn(n)
 			}
 			text = expand(placeTemplates[i], ind)
+			if j := strings.Index(text, "\x01"); j >= 0 {
+				text = strings.Replace(text, "\x01", "", 1)
+				subLo = j
+				subHi = strings.Index(text, "\x02") - 1 + len(g.kind.expr) // \x00 still inside
+				text = strings.Replace(text, "\x02", "", 1)
+			}
 			off = strings.Index(text, "\x00")
 			text = strings.Replace(text, "\x00", g.kind.expr, 1)
 			g.shape = append(g.shape, fmt.Sprintf("place:%d", i))
@@ -563,6 +575,9 @@ func (g *gen) writeTarget(e *emitter, k int, ind string) {
 			e.w(ind + "host.mark(2)\n")
 		}
 		g.c.Fail = s
+		if subLo >= 0 {
+			g.c.Fail = span{s.File, s.Lo + subLo, s.Lo + subHi}
+		}
 		g.c.FailOff = s.Lo + off
 	})
 }
